@@ -191,6 +191,10 @@ def c06(tier):
             while len(xs) < 6 * n + 30:
                 xs += [rnd.randint(1, 9) for _ in range(rnd.randint(n, 2 * n))] + [33554432] + [rnd.randint(1, 9) for _ in range(n + 2)]
             f32s.append({"cfg": {"k": k, "n": n}, "unit": 1, "mode": "window", "eps": [1, 100], "float": "f32", "xs": xs, "k": 1})
+    # f32 over a few thousand updates (anything that grows with the number of updates - an absolute time index - loses f32 precision)
+    for k in kinds:
+        f32s.append({"cfg": {"k": k, "n": 10}, "unit": 10, "mode": "window", "eps": [1, 100], "float": "f32",
+                     "xs": walk(rnd, 6000, 100, 2000, 60), "k": 40, "dense": [[5950, 6000]]})
     run.submit(p3_stream_job, "trend-f32", "C06", f32s)
     run.submit(p3_stream_job, "trend-sweep", "C06", window_sweep(rnd, kinds, lo=-30, hi=30, ns=[n for n in SWEEP_NS if n <= 66]))
     f32_job(run, "C06", cfgs(kinds, [3, 4]), [-2, 0, 1, 3], 6)
@@ -473,6 +477,14 @@ def c12(tier):
         dif = [c for c in cf if c["k"] in ("HLNormalizer", "NoiseEliminationTechnology", "EhlersFisherTransform")] + [{"k": "EhlersFisherTransform", "n": n, "c": [E, E]}]
         rel_job(run, "offset-dyadic-n%d" % n, "C12", dif, A, 1, L, [1, 1], [1048576, 1], "affine", bitexact=True, invonly=True)
         rel_job(run, "neg-n%d" % n, "C12", cf, A, 1, L, [-1, 1], [0, 1], "neg", cfgs2=swap_minmax(cf))
+    # the offset-invariant views over inner views that remove the offset themselves (CyberCycle, x - Sma(x)): x -> a*x + b reaches
+    # the outer view as a pure scaling, so nothing of b may show (an outer view that peeks at the raw input would)
+    remov = [{"k": "CyberCycle", "n": 2}, {"k": "Subtract", "c": [E, sma(2)]}]
+    # (not NET: it depends on the ORDER of the inner outputs only, and values that tie in exact arithmetic are split by the rounding of b)
+    outer_ = cfgs(["HLNormalizer", "Vsct", "CorrelationTrendIndicator"], [3]) + [{"k": "EhlersFisherTransform", "n": 3, "c": [E, ema(2)]}]
+    chr_ = [with_leaf(o, i) if i["k"] != "Subtract" else dict(o, c=[i] + o.get("c", [E])[1:]) for o in outer_ for i in remov]
+    for b_ in ([5, 2], [1024, 1]):
+        rel_job(run, "affine-chain-b%d" % b_[0], "C12", chr_, [-2, 0, 1, 3], 1, 7, [3, 1], b_, "affine")
     # the optimised build and the f32 instantiation (a power of two is exact in both)
     rel_job(run, "scale2-release", "C12", c12_cfgs(3), [-2, 0, 1, 3], 1, 6, [2, 1], [0, 1], "scale", bitexact=True, profile="release")
     rel_job(run, "scale2-f32", "C12", c12_cfgs(3), [-2, 0, 1, 3], 1, 6, [2, 1], [0, 1], "scale", bitexact=True, flt="f32")
@@ -675,8 +687,9 @@ def c08(tier):
         for k_ in (-70, 60):
             run.submit(p1_job, "rdy-units-n%d-p%d" % (n, k_), "MC_Obs", {"prop": "C08", "cfgs": cat_, "alphabet": [-1, 0, 1], "unit": 1, "maxlen": 6, "pow2": k_},
                        nontrivial_keys=("ready.yes", "ready.no"), view_label=label)
-        run.submit(p1_job, "rdy-f32-n%d" % n, "MC_Obs", {"prop": "C08", "cfgs": catalogue(n), "alphabet": [-1, 0, 1], "unit": 1, "maxlen": 6, "float": "f32"},
-                   nontrivial_keys=("ready.yes", "ready.no"), view_label=label)
+        for prof_ in ("dev", "release"):      # (a debug build turns a NaN into a panic, which is C15's subject; the release build reports it)
+            run.submit(p1_job, "rdy-f32-n%d-%s" % (n, prof_), "MC_Obs", {"prop": "C08", "cfgs": catalogue(n), "alphabet": [-1, 0, 1], "unit": 1, "maxlen": 6, "float": "f32"},
+                       profile=prof_, nontrivial_keys=("ready.yes", "ready.no"), view_label=label)
     # f32: a jump 2^25 times the moves that follow (a small move absorbed by a large running sum), finite and no relapse; and
     # magnitudes of a few hundred through every view over Tanh (exp overflows early in f32)
     rj = random.Random(818 + run.seed)
@@ -849,6 +862,13 @@ def c01(tier):
                     run.submit(p1_job, "chain-%s-%d" % (tag, i // 4), "MC_C01",
                                dict({"cfgs": c01_pairs(smp[i:i + 4], inners(na)), "alphabet": [1, 2, 4], "unit": 1, "maxlen": L, "taps": True}, **sx),
                                cfgfile="MC_C01.cfg", cfg_fraction=2, nontrivial_keys=("same-answer",), view_label=c01_label, **kw)
+        if (nb, na) == combos[0]:
+            # f32, raw inputs near 100 with moves of 1: inner outputs (returns, rates) are tiny next to the raw input - nothing of the
+            # raw input's magnitude may reach the outer view
+            flex = [{"k": "TrendFlex", "n": 3}, {"k": "ReFlex", "n": 3}, {"k": "Vsct", "n": 3}, {"k": "MyRSI", "n": 3}]
+            tiny = [{"k": "LnReturn"}, {"k": "Roc", "n": 1}, {"k": "CyberCycle", "n": 2}]
+            run.submit(p1_job, "chain-f32-tiny", "MC_C01", {"cfgs": c01_pairs(flex, tiny), "alphabet": [100, 101, 103], "unit": 1, "maxlen": L + 2, "taps": True, "float": "f32"},
+                       cfgfile="MC_C01.cfg", cfg_fraction=2, nontrivial_keys=("same-answer",), view_label=c01_label)
         # a second alphabet with zero and negatives for the views whose domain admits it
         nopos = [o for o in unary(nb) if o["k"] not in ("LnReturn", "Drawdown")]
         inn = [c for c in inners(na) if c["k"] not in ("LnReturn", "Drawdown", "Divide")][:12 if tier == "quick" else 99]
